@@ -209,6 +209,14 @@ func (h *hist) accByProto(id []byte) int {
 			return i
 		}
 	}
+	// a byte-different but valid encoding of the same public key (hand-signed records use them)
+	if pk, err := crypto.UnmarshalEd25519PublicKeyProto(id); err == nil {
+		for i, a := range h.accs {
+			if a.SignKey.GetPublic().Equals(pk) {
+				return i
+			}
+		}
+	}
 	return -1
 }
 
@@ -216,6 +224,13 @@ func (h *hist) invByProto(id []byte) int {
 	for i, v := range h.invs {
 		if bytes.Equal(v.pubProto, id) {
 			return i
+		}
+	}
+	if pk, err := crypto.UnmarshalEd25519PublicKeyProto(id); err == nil {
+		for i, v := range h.invs {
+			if v.priv != nil && v.priv.GetPublic().Equals(pk) {
+				return i
+			}
 		}
 	}
 	return -1
